@@ -262,7 +262,7 @@ theorem stepRaw_calls {s : SeqState} {op : Op} (hs : selfStored op = true)
       all_goals first
         | (simp_all; done)
         | exact store_ok (Fr_done (addChannel_FrS _ _)) (by assumption)
-  | target qs n => exact store_ok (Fr_targetCore s qs n) h
+  | target qs n => exact store_ok (Fr_orRollback (Fr_targetCore s qs n)) h
   | add p n proto =>
     simp only [stepRaw] at h ⊢
     refine store_ok (Fr_markNonEmpty ?_) h
@@ -279,20 +279,20 @@ theorem stepRaw_calls {s : SeqState} {op : Op} (hs : selfStored op = true)
     repeat' split
     all_goals first | exact Fr_fail s _ | exact Fr_addCore s _ _ _ _
   | delay d n atRest =>
-    refine store_ok ?_ h
+    refine store_ok (Fr_orRollback ?_) h
     rcases delayChecked_cases s d n atRest with hc | ⟨e, hc⟩ <;> rw [hc]
     · exact Fr_delayCore s d n atRest
     · exact Fr_fail s e
   | align chs atRest =>
     simp only [stepRaw] at h ⊢
-    refine store_ok ?_ h
+    refine store_ok (Fr_orRollback ?_) h
     repeat' split
     all_goals first
       | exact Fr_fail s _ | exact Fr_done ⟨rfl, rfl, rfl⟩ | exact Fr_alignLoop _ _ _
   | phaseShift phi qs b => exact store_ok (Fr_phaseShift s phi qs b) h
   | disableEom n corr =>
     simp only [stepRaw] at h ⊢
-    refine store_ok ?_ h
+    refine store_ok (Fr_orRollback ?_) h
     repeat' split
     all_goals first
       | exact Fr_fail s _
